@@ -25,6 +25,14 @@ PROFILES = [
 
 def witnesses():
     w = []
+    # an exception raised inside a loop (over a dictionary, over a list, 每当) — directly, in a nested block, in a called method —
+    # leaves the loop and reaches the handler of the body (or ends the program); nothing after the loop runs
+    thrower = Func("T", [], [Throw("异常", [Str("t")]), Return(Num(1))], [])
+    for target in (Map([("a", Num(1)), ("b", Num(2))]), Arr([Num(1), Num(2)])):
+        for inner in ([Throw("异常", [Str("x")])], [Branch(Logic("eq", Var("V"), Num(2)), [Throw("异常", [Str("y")])])], [ExprS(Call("T", []))]):
+            for catches in ([], [("异常", [Display(Str("h"), ThisProp("内容")), Return(Num(5))])]):
+                w.append((([], [thrower, Iter(target, ["K", "V"], [Display(Var("K"))] + inner + [Display(Str("rest"))]), Display(Str("after")), Return(Num(0))],
+                           catches), None, "witness"))
     # runtime fault caught in program body and in a method; handler without 输出; 其内容; nested: G catches F's throw then caller continues
     w.append((([], [Decl([(False, ["A"], Arith("/", Num(1), Num(0)))]), Return(Var("A"))], [("异常", [Return(Str("caught"))])]), None, "witness"))
     w.append((([], [Func("F", [], [Decl([(False, ["A"], Arith("/", Num(1), Num(0)))]), Return(Num(1))], [("异常", [Display(Str("h"))])]),
